@@ -176,7 +176,7 @@ def create_header(ns_prefix: Optional[NamespaceIds] = None) -> GeneratedContent:
 
     namespace, _, file_ns = distillate_ns(ns_prefix)
 
-    system_includes = SystemIncludes(['optional', 'functional', 'string', 'vector'])
+    system_includes = SystemIncludes(['functional', 'map', 'optional', 'stdexcept', 'string', 'vector'])
     project_includes = ProjectIncludes([f'{file_ns}_{x}.hh' for x in ['ILog',
                                                                       'MiscUtils',
                                                                       'MetaHelpers',
